@@ -25,10 +25,17 @@ RULES = [
     ("R-shuffle", "message_ids . shuffle ( & mut rand :: thread_rng ( ) ) ;", "vx_shuffle ( & mut message_ids , & mut rand :: thread_rng ( ) ) ;", "rand SliceRandom::shuffle stand-in (trusted: permutes in place)"),
     ("R-shuffle", "action_ids . shuffle ( & mut rand :: thread_rng ( ) ) ;", "vx_shuffle ( & mut action_ids , & mut rand :: thread_rng ( ) ) ;", "rand SliceRandom::shuffle stand-in (trusted: permutes in place)"),
     ("R-abs", "for ( _ , tx ) in self . bootstrap_txs . drain ( ) { tx . send ( ( ) ) . unwrap_or ( ( ) ) }", "vx_notify_all ( & mut self . bootstrap_txs ) ;", "ABSTRACTION: notifying bootstrap waiters (HashMap::drain + oneshot) replaced by an opaque stand-in; the loop is not verified"),
-    ("R-abs", "let ( iterate_nodes , next_dist_to_beat ) = if ! nodes . is_empty ( ) { $body } else { ( None , dist_to_beat ) } ;", "let ( iterate_nodes , next_dist_to_beat ) = vx_abs_pick_nodes ( & mut self . all_sorted_nodes , & self . requested_nodes , nodes , dist_to_beat , self . target_id ) ;", "ABSTRACTION: lookup.rs next-node selection (fold / pick_iterate_nodes / insert_sorted_node over generic iterators) replaced by an opaque stand-in that may only write all_sorted_nodes; the block is not verified"),
+    ("R-fold", "nodes . iter ( ) . filter ( $c ) . fold ( $i , $f )", "vx_fold ( nodes . iter ( ) . filter ( $c ) , $i , $f )", "Iterator::fold has no vstd spec -> verified helper with std's definition (loop over next(), accumulator threaded through the closure)"),
+    ("R-copied", ". filter ( $c ) . copied ( )", ". filter ( $c ) . map ( | vx_x | * vx_x )", "Iterator::copied has no vstd spec -> its definition map(|x| *x)"),
+    ("R-refpat", "for & mut ( ref mut $a , ref mut $b ) in", "for ( $a , $b ) in", "explicit `&mut (ref mut a, ref mut b)` pattern -> the default-binding-mode form `(a, b)` (same bindings by RFC 2005; Verus has no ref patterns)"),
+    ("R-foriter", "for node in unsorted_nodes {", "let mut vx_it = unsorted_nodes ; loop { let vx_nx = vx_it . next ( ) ; if vx_nx . is_none ( ) { break ; } let node = vx_nx . unwrap ( ) ;", "for over a generic iterator -> its definition (loop over next() until None)"),
+    ("R-foriter", "for ( src , dst ) in sorted_nodes . zip ( $z ) {", "let mut vx_it = sorted_nodes . zip ( $z ) ; loop { let vx_nx = vx_it . next ( ) ; if vx_nx . is_none ( ) { break ; } let ( src , dst ) = vx_nx . unwrap ( ) ;", "for over a generic iterator -> its definition (loop over next() until None)"),
     ("R-abs", "let mut assorted_iter = assorted_bucket . iter ( ) . peekable ( ) ; $rest }", "vx_abs_assorted ( buckets , self_node_id ) }", "ABSTRACTION: the tail of precompute_assorted_nodes (peekable + enumerate over the last bucket) replaced by an opaque stand-in; only the early return for a full-depth table is verified"),
     ("R-clpat", ". filter ( | ( $pat ) | $b )", ". filter ( | p | let ( $pat ) = p ; $b )", "closure pattern parameter -> named parameter + leading let (Verus needs a named parameter to state the closure's ensures)"),
     ("R-clpat", ". map ( | ( $pat ) | $b )", ". map ( | p | let ( $pat ) = p ; $b )", "closure pattern parameter -> named parameter + leading let"),
+    ("R-clpat", ". any ( | ( $pat ) | $b )", ". any ( | p | let ( $pat ) = p ; $b )", "closure pattern parameter -> named parameter + leading let"),
+    ("R-clpat", ". binary_search_by ( | ( $pat ) | $b )", ". binary_search_by ( | p | let ( $pat ) = p ; $b )", "closure pattern parameter -> named parameter + leading let"),
+    ("R-extconst", "SocketAddr :: from ( ( Ipv4Addr :: UNSPECIFIED , 0 ) )", "vx_unspecified_addr ( )", "associated const of an external type (unsupported by Verus) -> opaque stand-in returning a SocketAddr (the value is a placeholder for unused slots)"),
     ("R-ordmax", "NODE_TIMEOUT . max ( $b )", "vx_duration_max ( NODE_TIMEOUT , $b )", "Ord::max is a provided trait method (Verus accepts no assume_specification for it): stand-in returning one of its arguments"),
     ("R-foriter", "for ( node , dist_to_beat ) in nodes {", "let mut vx_it = nodes ; loop { let vx_nx = vx_it . next ( ) ; if vx_nx . is_none ( ) { break ; } let ( node , dist_to_beat ) = vx_nx . unwrap ( ) ;", "for over a generic iterator -> its definition (loop over next() until None); Verus for-loops support neither generic iterators nor `continue`"),
     ("R-foriter", "for node_info in self . all_sorted_nodes . iter_mut ( ) . filter ( $c ) {", "let mut vx_it = self . all_sorted_nodes . iter_mut ( ) . filter ( $c ) ; loop { let vx_nx = vx_it . next ( ) ; if vx_nx . is_none ( ) { break ; } let node_info = vx_nx . unwrap ( ) ;", "for over an iterator adapter chain -> its definition (loop over next() until None); Verus for-loops do not support `continue`"),
